@@ -651,10 +651,17 @@ class QueryObjectDescriptor(CanBehaveLikeAVariable[T], ABC):
             yield bindings
             return
         var, remaining_vars = selected_vars[0], selected_vars[1:]
-        for var_val in var._evaluate__(copy(bindings)):
-            new_bindings = copy(bindings)
-            new_bindings.update(var_val)
-            yield from self._bind_selected_variables_(remaining_vars, new_bindings)
+        # a selected expression is used as a value here, also when the same expression object stands (or stood, in an
+        # earlier query) in condition position somewhere else.
+        previous_eval_parent = var._eval_parent_
+        var._eval_parent_ = self
+        try:
+            for var_val in var._evaluate__(copy(bindings)):
+                new_bindings = copy(bindings)
+                new_bindings.update(var_val)
+                yield from self._bind_selected_variables_(remaining_vars, new_bindings)
+        finally:
+            var._eval_parent_ = previous_eval_parent
 
     def _warn_on_unbound_variables_(self, sources: Dict[int, HashedValue],
                                     selected_vars: Iterable[CanBehaveLikeAVariable]):
